@@ -61,26 +61,34 @@ def mirror_job(e, p):
     e.hooks['chan_cut'] = cutfn
     prev = z3.BitVecVal(0, 64)
     stores = {'relay': (relay, c1), 'last': (last, c2)}
+    # optionally the downstream store goes away (with its receiver) before a poll chosen by the solver; the relay must keep mirroring the producer
+    drop_at = e.choose(P + 1, 'drop') if p.get('drop_last') else None
+    gone = False
     for k in range(P):
-        who = ['relay', 'last'][e.choose(2, 'who')]
+        if drop_at == k:
+            c2.receivers = 0; gone = True; sched.append(('drop_last', z3.BitVecVal(0, 64), prev))
+        who = 'relay' if gone else ['relay', 'last'][e.choose(2, 'who')]
         cut = z3.BitVec('cut%d' % k, 64); e.assume(z3.ULE(prev, cut)); e.assume(z3.ULE(cut, K)); prev = cut
         cur['cut'] = cut
         term = z3.BitVec('term%d' % k, 64)
         sched.append((who, term, cut))
         bdd, ch = stores[who]
         ret = e.call('obdd::Bdd::recv', [Ref([bdd], 0), T(term)])
-        check_state(e, 'poll %d by %s' % (k, who), relay, last, c1, c2, pn, conc, canary)
+        check_state(e, 'poll %d by %s' % (k, who), relay, last, c1, c2, pn, conc, canary, gone)
         ln = len(bdd_nodes(e, bdd))
         m = sat_model(e, differs(ret if isinstance(ret, bool) else zb(ret), z3.ULT(term, ln)))
         if m is not None:
             report(e, 'wrong-found', what='recv(%d) by %s answered %s with %d nodes present afterwards' % (mint(m, term), who, mbool(m, zb(ret)), ln), case=conc(m))
     # producer done, everything visible: drain relay, then last
     cur['cut'] = z3.BitVecVal(K, 64)
-    for who in ('relay', 'last'):
+    if drop_at == P:
+        c2.receivers = 0; gone = True; sched.append(('drop_last', z3.BitVecVal(0, 64), prev))
+    live = ('relay',) if gone else ('relay', 'last')
+    for who in live:
         bdd, ch = stores[who]
         e.call('obdd::Bdd::recv', [Ref([bdd], 0), T((1 << 64) - 1)])
     sched.append(('drain', z3.BitVecVal(0, 64), z3.BitVecVal(K, 64)))
-    for who in ('relay', 'last'):
+    for who in live:
         if not same_nodes(node_tuples(e, stores[who][0]), pn):
             m = sat_model(e, True)
             report(e, 'final-mismatch', what='after draining, the node table of %s differs from the producer\'s' % who, case=conc(m))
@@ -131,8 +139,8 @@ def same_nodes(a, b):
     return True
 
 
-def check_state(e, where, relay, last, c1, c2, pn, conc, canary):
-    for name, bdd, ch in (('relay', relay, c1), ('last', last, c2)):
+def check_state(e, where, relay, last, c1, c2, pn, conc, canary, gone=False):
+    for name, bdd, ch in ((('relay', relay, c1),) if gone else (('relay', relay, c1), ('last', last, c2))):
         got = node_tuples(e, bdd)
         want = pn[:2 + ch.head + (1 if canary else 0)]
         if not same_nodes(got, want):
@@ -145,14 +153,16 @@ def py_judge(case, out):
     if 'polls' not in out: return ['native run failed: %s' % str(out)[:200]]
     probs = []
     pn = out['producer']
-    for i, (pl, o) in enumerate(zip(case['polls'], out['polls'])):
+    real = [pl for pl in case['polls'] if pl['who'] in ('relay', 'last')]
+    for i, (pl, o) in enumerate(zip(real, out['polls'])):
         for who in ('relay', 'last'):
+            if o[who] is None: continue          # the downstream store was dropped
             k = o[who + '_consumed']
             if o[who] != pn[:2 + k]: probs.append('poll %d: %s is not the producer prefix of length %d' % (i, who, 2 + k))
         if pl['who'] in ('relay', 'last'):
             present = int(pl['term']) < len(o[pl['who']])
             if o['ret'] != present: probs.append('poll %d: recv(%s) by %s answered %s, present afterwards: %s' % (i, pl['term'], pl['who'], o['ret'], present))
-    if out['final_relay'] != pn or out['final_last'] != pn: probs.append('after draining the tables differ from the producer')
+    if out['final_relay'] != pn or (out['final_last'] is not None and out['final_last'] != pn): probs.append('after draining the tables differ from the producer')
     return probs
 
 def native_cmd(case): return dict(case, cmd='mirror_bounded' if case.get('cap') else 'mirror')
@@ -172,15 +182,19 @@ def run_concrete(eng, case):
     eng.hooks['chan_cut'] = lambda e_, ch: (ch.head < cur['cut']) if ch is c1 else True
     out = []
     stores = {'relay': relay, 'last': last}
+    gone = False
     for pl in case['polls']:
+        if pl['who'] == 'drop_last':
+            c2.receivers = 0; gone = True; continue
         if pl['who'] == 'drain':
             cur['cut'] = len(c1.q)
-            for who in ('relay', 'last'): eng.call('obdd::Bdd::recv', [Ref([stores[who]], 0), T((1 << 64) - 1)])
+            for who in (('relay',) if gone else ('relay', 'last')): eng.call('obdd::Bdd::recv', [Ref([stores[who]], 0), T((1 << 64) - 1)])
             continue
         cur['cut'] = pl['cut']
         ret = eng.call('obdd::Bdd::recv', [Ref([stores[pl['who']]], 0), T(int(pl['term']))])
-        out.append({'ret': ret, 'relay': len(bdd_nodes(eng, relay)), 'last': len(bdd_nodes(eng, last))})
+        out.append({'ret': ret, 'relay': len(bdd_nodes(eng, relay)), 'last': None if gone else len(bdd_nodes(eng, last))})
     fin = [[[str(a), b, c] for a, b, c in node_tuples(eng, x)] for x in (prod, relay, last)]
+    if gone: fin[2] = None
     return out, fin
 
 
@@ -196,9 +210,12 @@ def validate(ctx, tier, seed):
             for key_ in ('a', 'b'):
                 if key_ in s: s[key_] = min(s[key_], k - 1) if k > 0 else 0
         polls = []; cut = 0
-        for _ in range(rng.randint(1, 4)):
+        npl = rng.randint(1, 4); drop = rng.randint(0, npl) if i % 3 == 2 else None
+        for j in range(npl):
+            if drop == j: polls.append({'who': 'drop_last', 'term': '0', 'cut': cut})
             cut = rng.randint(cut, 12)
-            polls.append({'who': rng.choice(['relay', 'last']), 'term': str(rng.choice([0, 1, 2, 3, 4, 5, 7, 9, 2**64 - 1])), 'cut': cut})
+            polls.append({'who': 'relay' if drop is not None and j >= drop else rng.choice(['relay', 'last']), 'term': str(rng.choice([0, 1, 2, 3, 4, 5, 7, 9, 2**64 - 1])), 'cut': cut})
+        if drop == npl: polls.append({'who': 'drop_last', 'term': '0', 'cut': cut})
         polls.append({'who': 'drain', 'term': '0', 'cut': 0})
         case = {'n': n, 'script': script, 'polls': polls}
         out = nat.call(native_cmd(case))
@@ -207,7 +224,7 @@ def validate(ctx, tier, seed):
         except Exception as ex:
             mism.append('mirse failed on %s: %r' % (json.dumps(case), ex)); continue
         if 'polls' not in out: mism.append('native failed on %s: %s' % (json.dumps(case), out)); continue
-        nat_polls = [{'ret': o['ret'], 'relay': len(o['relay']), 'last': len(o['last'])} for o in out['polls'][:len(mine)]]
+        nat_polls = [{'ret': o['ret'], 'relay': len(o['relay']), 'last': None if o['last'] is None else len(o['last'])} for o in out['polls'][:len(mine)]]
         if nat_polls != mine or fin != [out['producer'], out['final_relay'], out['final_last']]:
             mism.append('%s: native %s / mirse %s' % (json.dumps(case), nat_polls, mine))
         if py_judge(case, out): ctx.notes.append('validation schedule violates the property natively: %s' % json.dumps(case))
@@ -233,9 +250,12 @@ def spec(ctx, tier, seed):
         # the number of schedules grows with (messages+2)^polls: long producer scripts get one poll less in the quick tier
         npolls = (3 if len(sc) <= 4 else 2) if tier == 'quick' else (4 if len(sc) <= 3 else 3)
         jobs.append(Job('seeded-n3-%d' % i, mod, 'mirror_job', {'n': n, 'script': sc, 'polls': npolls}, stop_after_violations=40))
+        if i % 2 == 1:      # the same producer with the downstream store going away at a point chosen by the solver
+            jobs.append(Job('seeded-n3-%d-drop' % i, mod, 'mirror_job', {'n': n, 'script': sc, 'polls': max(2, npolls - 1), 'drop_last': True}, stop_after_violations=40))
     # statements / variables are plain machine words: the two largest indices double as terminal markers inside the node table
     jobs.append(Job('extreme-var-indices', mod, 'mirror_job', {'n': 2, 'script': [S, {'op': 'variable', 'var': (1 << 64) - 2}, {'op': 'variable', 'var': 1}, {'op': 'variable', 'var': (1 << 64) - 1},
                                                                                    {'op': 'not', 'a': 0}], 'polls': 2}, stop_after_violations=40))
+    jobs.append(Job('sym-n2-drop-downstream', mod, 'mirror_job', {'n': 2, 'script': [S, {'op': 'not', 'a': 0}, {'op': 'variable', 'var': 1}], 'polls': 2, 'drop_last': True}, stop_after_violations=40))
     jobs.append(Job('bounded-cap2-sym', mod, 'bounded_job', {'n': 2, 'script': [S, S, {'op': 'xor', 'a': 0, 'b': 1}], 'cap': 2}, stop_after_violations=40))
     jobs.append(Job('bounded-cap1-sym', mod, 'bounded_job', {'n': 2, 'script': [S, {'op': 'not', 'a': 0}], 'cap': 1}, stop_after_violations=40))
     jobs.append(Job('canary', mod, 'mirror_job', {'n': 2, 'script': [S, {'op': 'not', 'a': 0}], 'polls': 1, 'canary': True}, stop_after_violations=1, canary=True))
@@ -244,5 +264,5 @@ def spec(ctx, tier, seed):
                                           'the producer does not observe its receivers'],
             'bounds': 'producer scripts: one symbolic (quick: a 2-variable function xor a variable; thorough: two 2-variable functions and a conjunction) and seeded 3-variable scripts of 2-4 operations; relay chain of length 2; '
                       'up to %d polls (thorough: %d for producer scripts of at most three operations, else 3), each by relay or last (both explored), each with a symbolic non-decreasing visibility cut in [0,K] and an unconstrained symbolic 64-bit requested handle; '
-                      'final drain of both hops. Bounded channels (capacity 1 and 2): the relay is scheduled exactly when the producer would block' % (3, 4),
+                      'final drain of both hops; the same with the downstream store (and its receiver) dropped before a poll chosen by the solver, the relay continuing alone. Bounded channels (capacity 1 and 2): the relay is scheduled exactly when the producer would block' % (3, 4),
             'outside': 'more polls; chains longer than 2; a visibility cut inside the relay-to-last hop is subsumed by a later poll (argued, not executed); OS-level thread scheduling itself'}
